@@ -776,40 +776,23 @@ func (gen *Generator) GenerateCallBySymbol(sym *SexpSymbol, args []Sexp, orig Se
 
 	oldtail := gen.Tail
 	gen.Tail = false
-	if oldtail && sym.name == gen.funcname && gen.selfCallArityOk(sym, len(args)) {
-		err := gen.GenerateCallArgsForFunction(gen.LookupKnownFunction(sym), args)
-		if err != nil {
-			return err
-		}
-		// to do a tail call
-		// pop off all the extra scopes and the function's own scope,
-		// then jump to beginning of function, where a fresh function
-		// scope is added: closures created by earlier iterations keep
-		// the parameters they captured.
-		gen.AddInstruction(TailCallInstr{sym: sym, nargs: len(args), scopes: gen.scopes + 1})
+	if oldtail && sym.name == gen.funcname {
+		// a call of the function's own name in tail position. Like
+		// CallExprInstr, TailCallInstr looks the callee up and evaluates
+		// the arguments when it runs, so that what is passed (lazily or
+		// not, how many, of which types) is decided by the function that
+		// is called, not by what the name meant when this was compiled.
+		// If the callee is the running function, the extra scopes and
+		// the function's own scope are popped and execution jumps to
+		// the beginning of the function, where a fresh function scope is
+		// added: closures created by earlier iterations keep the
+		// parameters they captured.
+		gen.AddInstruction(TailCallInstr{sym: sym, args: append([]Sexp(nil), args...), scopes: gen.scopes + 1})
 	} else {
 		gen.AddInstruction(CallExprInstr{callee: sym, args: append([]Sexp(nil), args...)})
 	}
 	gen.Tail = oldtail
 	return nil
-}
-
-// selfCallArityOk reports whether a self call with nargs arguments can be
-// compiled as a jump back to the start of the function being generated. A
-// call with the wrong number of arguments is compiled as an ordinary call,
-// which reports the arity error when it is executed.
-func (gen *Generator) selfCallArityOk(sym *SexpSymbol, nargs int) bool {
-	var function *SexpFunction
-	if gen.knownFunctions != nil {
-		function = gen.knownFunctions[sym.number]
-	}
-	if function == nil {
-		return true
-	}
-	if function.varargs {
-		return nargs >= function.nargs
-	}
-	return nargs == function.nargs
 }
 
 func (gen *Generator) GenerateBuilder(fun Sexp, args []Sexp) error {
